@@ -430,7 +430,11 @@ def merge_results(prop, rule, results, t0, extra_distribution=None):
             'per_generator': by_gen, 'per_generator_accepted': by_gen_acc,
             'violations_total': fnd.total(), 'violation_sites': len(fnd.sites),
             'failing_sites': fnd.site_table(), 'modules': len(per_module),
-            'wall_seconds': round(time.time() - t0, 2)}
+            'timing_not_deterministic': {
+                'wall_seconds': round(time.time() - t0, 2),
+                'slowest_tasks_seconds': [[str(r['task']), r.get('seconds')] for r in sorted(
+                    results, key=lambda r: -(r.get('seconds') or 0))[:6]],
+                'task_seconds_total': round(sum(r.get('seconds') or 0 for r in results), 1)}}
     if extra_distribution:
         dist.update(extra_distribution)
     return {'property': prop, 'cases': tot['cases'], 'distinct_nontrivial': tot['distinct_nontrivial'],
@@ -443,7 +447,10 @@ _WORKER = None
 
 
 def _run(task):
-    return _WORKER(task)
+    t = time.time()
+    r = _WORKER(task)
+    r['seconds'] = round(time.time() - t, 2)
+    return r
 
 
 def run_tasks(worker, tasks, nproc=None):
@@ -452,7 +459,7 @@ def run_tasks(worker, tasks, nproc=None):
     _WORKER = worker
     nproc = nproc or NPROC
     if nproc <= 1 or len(tasks) <= 1:
-        return [worker(t) for t in tasks]
+        return [_run(t) for t in tasks]
     common.corpus()           # load once before forking
     common.number_modules()
     ctx = multiprocessing.get_context('fork')
@@ -855,7 +862,7 @@ def main(prop, search, replay=None):
     if '--summary' in sys.argv:
         d = res['distribution']
         res = {'property': prop, 'tier': tier, 'cases': res['cases'], 'distinct_nontrivial': res['distinct_nontrivial'],
-               'wall_seconds': res['wall_seconds'], 'violation_sites': d.get('violation_sites'),
+               'wall_seconds': res['wall_seconds'], 'timing': d.get('timing_not_deterministic'), 'violation_sites': d.get('violation_sites'),
                'violations_total': d.get('violations_total'), 'outcomes': d.get('outcomes'),
                'per_generator': d.get('per_generator'), 'failing_sites': d.get('failing_sites')}
     json.dump(res, sys.stdout, indent=1, sort_keys=True, default=str)
